@@ -475,7 +475,9 @@ class ConcurrentExecutor(ABC, Generic[CallableType, ResultType]):
                 config=ChildConfig(
                     serdes=self.item_serdes or self.serdes,
                     sub_type=self.sub_type_iteration,
-                    summary_generator=self.summary_generator,
+                    # self.summary_generator summarises the BatchResult of the whole map/parallel;
+                    # a branch returns an arbitrary user value, so it must not be applied here
+                    # (an oversized branch result failed the branch with AttributeError).
                 ),
             )
         finally:
